@@ -795,6 +795,22 @@ impl<'a> JsGen<'a> {
     }
 }
 
+/// boundary sizes for anything that is counted, indexed, cached or buffered
+pub const BOUNDARY: &[usize] = &[1, 2, 7, 8, 9, 10, 11, 15, 16, 17, 31, 32, 33, 63, 64, 65, 66, 99, 100, 101, 127, 128, 129, 255, 256, 257];
+
+/// one function whose single statement needs about `n` temporaries / operands / properties
+pub fn gen_wide(rng: &mut Rng, n: usize) -> String {
+    let call = |i: usize| format!("b(a, {})", i);
+    let body = match rng.below(5) {
+        0 => format!("return a.concat({});", (0..n).map(call).collect::<Vec<_>>().join(", ")),
+        1 => format!("return {};", (0..n.max(2)).map(call).collect::<Vec<_>>().join(" + ")),
+        2 => format!("return `{}`;", (0..n).map(|i| format!("${{{}}}", call(i))).collect::<Vec<_>>().join("|")),
+        3 => format!("return fn0({{ {} }});", (0..n).map(|i| format!("k{}: a.p{} + {}", i, i, call(i))).collect::<Vec<_>>().join(", ")),
+        _ => format!("return [{}].join(a + b(a, 0));", (0..n).map(|i| format!("{}.trim()", call(i))).collect::<Vec<_>>().join(", ")),
+    };
+    format!("function fn0(x) {{ return x; }}\nfunction wide(a, b) {{\n  {}\n}}\nfunction after(a, b) {{ return a + b(a, 1); }}\nmodule.exports = {{ wide }};\n", body)
+}
+
 /// many distinct long string literals (the literal report has to carry all of them)
 pub fn gen_many_literals(rng: &mut Rng, n: usize) -> String {
     let mut s = String::from("function lits(a, b) {\n  const all = [\n");
